@@ -44,6 +44,8 @@ pub struct DictMachine {
     cur: usize,
     merges: usize,
     tags: Vec<String>,
+    /// a push or merge of the scripted start state failed although nothing allows it to
+    seed_error: Option<String>,
 }
 
 const FIXED: [&[u8]; 9] = [b"", b"a", b"ab", b"abc", b"b", b"\0", b"\0x", b"\x01", b"\x01x"];
@@ -65,7 +67,7 @@ fn inner_used(r: &R) -> usize {
 
 impl DictMachine {
     pub fn new(cfg: DictCfg) -> Self {
-        DictMachine { cfg, pool: vec![], cur: 0, merges: 0, tags: vec![] }
+        DictMachine { cfg, pool: vec![], cur: 0, merges: 0, tags: vec![], seed_error: None }
     }
 
     fn relative(&self, k: usize) -> Option<Vec<u8>> {
@@ -104,6 +106,11 @@ impl DictMachine {
             Alphabet::Relative => {
                 if k < FIXED.len() {
                     Some(FIXED[k].to_vec())
+                } else if k == FIXED.len() + N_REL {
+                    // the most frequent string of the sources the current region was built from
+                    // (taken from the model, so it is offered whether or not the dictionary holds it)
+                    let src = self.pool[self.cur].sources.as_ref()?;
+                    src.counts.iter().max_by_key(|x| x.1).map(|x| x.0.clone())
                 } else {
                     self.relative(k - FIXED.len())
                 }
@@ -262,14 +269,28 @@ impl DictMachine {
         Step::Ok
     }
 
+    fn seed_merge(&mut self, mask: u32) {
+        if let Step::Violation(v) = self.merge(mask) {
+            self.seed_error.get_or_insert(v);
+        }
+    }
+
     fn seed(&mut self) {
         // scripted non-initial states; all through the public API
+        let err = std::cell::RefCell::new(None::<String>);
         let train = |reg: &mut Reg, items: &[(&[u8], usize)]| {
             for (s, n) in items {
                 for _ in 0..*n {
-                    if let Ok(idx) = Self::raw_push(reg, s) {
-                        reg.issued.push((idx, s.to_vec()));
-                        reg.pushes.push(s.to_vec());
+                    let ambiguous = Self::ambiguous(reg, s);
+                    match Self::raw_push(reg, s) {
+                        Ok(idx) => {
+                            reg.issued.push((idx, s.to_vec()));
+                            reg.pushes.push(s.to_vec());
+                        }
+                        Err(p) if !ambiguous => {
+                            err.borrow_mut().get_or_insert(format!("push({}) as item #{} panicked: {p}", show_bytes(s), reg.pushes.len()));
+                        }
+                        Err(_) => {}
                     }
                 }
             }
@@ -279,15 +300,15 @@ impl DictMachine {
             1 => {
                 // first generation trained on "abc" (dominant) and "b"
                 train(&mut self.pool[0], &[(b"abc", 3), (b"b", 1)]);
-                let _ = self.merge(1);
+                self.seed_merge(1);
             }
             2 => {
                 // second generation
                 train(&mut self.pool[0], &[(b"abc", 3), (b"b", 1)]);
-                let _ = self.merge(1);
+                self.seed_merge(1);
                 let c = self.cur;
                 train(&mut self.pool[c], &[(b"abc", 2), (b"xy", 3)]);
-                let _ = self.merge(1 << c);
+                self.seed_merge(1 << c);
             }
             3 | 4 | 5 => {
                 // > 1024 distinct strings cross the heavy-hitter summary's compaction
@@ -312,23 +333,23 @@ impl DictMachine {
                         train(&mut second, &[(&s, 1), (b"dominant", 2)]);
                     }
                     self.pool.push(second);
-                    let _ = self.merge(0b11);
+                    self.seed_merge(0b11);
                 } else {
-                    let _ = self.merge(1);
+                    self.seed_merge(1);
                 }
             }
             6 => {
                 // three generations; in the middle one an item is stored only as a dictionary code while
                 // ~300 more frequent strings push it out of the next dictionary
                 train(&mut self.pool[0], &[(b"\x01x", 3)]);
-                let _ = self.merge(1);
+                self.seed_merge(1);
                 let c = self.cur;
                 train(&mut self.pool[c], &[(b"\x01x", 1)]);
                 for i in 0..300 {
                     let s = format!("k{i}").into_bytes();
                     train(&mut self.pool[c], &[(&s, 2)]);
                 }
-                let _ = self.merge(1 << c);
+                self.seed_merge(1 << c);
             }
             7 => {
                 // dictionary entries totalling more than 65535 bytes
@@ -342,9 +363,35 @@ impl DictMachine {
                     let s = format!("s{i:02}").into_bytes();
                     train(&mut self.pool[0], &[(&s, 2)]);
                 }
-                let _ = self.merge(1);
+                self.seed_merge(1);
+            }
+            8 => {
+                // the heavy-hitter summary is compacted while more than 512 distinct strings have weight >= 2 and others less
+                // phase 1: 400 strings twice and the dominating string 224 times fill the summary exactly
+                // (1024 raw entries, 401 distinct: nothing is dropped); phase 2: 113 further strings twice
+                // and 398 strings once force a compaction with inner[512] of weight 2 and lighter entries
+                // behind it; afterwards the dominating string is pushed until it is > 1/2 of all pushes.
+                let reg = &mut self.pool[0];
+                for i in 0..400 {
+                    let s = format!("w{i}").into_bytes();
+                    train(reg, &[(&s, 2)]);
+                }
+                train(reg, &[(b"dominant", 224)]);
+                for i in 400..513 {
+                    let s = format!("w{i}").into_bytes();
+                    train(reg, &[(&s, 2)]);
+                }
+                for i in 0..398 {
+                    let s = format!("x{i}").into_bytes();
+                    train(reg, &[(&s, 1)]);
+                }
+                train(reg, &[(b"dominant", 1500)]);
+                self.seed_merge(1);
             }
             _ => {}
+        }
+        if self.seed_error.is_none() {
+            self.seed_error = err.into_inner();
         }
         self.merges = 0;
         self.tags.clear();
@@ -376,13 +423,14 @@ impl Machine for DictMachine {
         self.pool = vec![Reg::new(R::default(), 0)];
         self.cur = 0;
         self.merges = 0;
+        self.seed_error = None;
         self.seed();
     }
     fn enabled(&self) -> Vec<OpId> {
         let mut v = Vec::new();
         match self.cfg.alphabet {
             Alphabet::Relative => {
-                for k in 0..(FIXED.len() + N_REL) as u32 {
+                for k in 0..(FIXED.len() + N_REL + 1) as u32 {
                     if self.value(OP_PUSH + k).is_some() {
                         // skip relative strings that coincide with an earlier alphabet entry
                         let val = self.value(OP_PUSH + k).unwrap();
@@ -422,6 +470,9 @@ impl Machine for DictMachine {
         }
     }
     fn step(&mut self, op: OpId) -> Step {
+        if let Some(e) = &self.seed_error {
+            return Step::Violation(format!("while building the start state (seed {}): {e}", self.cfg.seed));
+        }
         let what = self.describe(op);
         let r = match op {
             OP_CLEAR => {
